@@ -23,7 +23,23 @@ type c19gen struct {
 	reads []string // database of every measurement placed
 }
 
-func (g *c19gen) db() string { g.n++; return fmt.Sprintf("db%d", g.n) }
+// db returns a fresh database name. Successive names differ only in letter case (dbx, DBX, Dbx, dby, ...): a
+// privilege list that treats them as one database is missing a read.
+func (g *c19gen) db() string {
+	i := g.n
+	g.n++
+	base := []string{"dbx", "dby", "dbz", "dbw"}[(i/3)%4]
+	if i >= 12 {
+		base += fmt.Sprint(i / 12)
+	}
+	switch i % 3 {
+	case 1:
+		return strings.ToUpper(base)
+	case 2:
+		return strings.ToUpper(base[:1]) + base[1:]
+	}
+	return base
+}
 
 // source renders one source; depth = remaining subquery nesting allowed.
 func (g *c19gen) source(depth int) string {
